@@ -17,6 +17,34 @@ for r in jl(SE + "/verification.jsonl"): ver[r["seed"]] = r           # last ent
 reg = {}
 for r in jl(SE + "/regression.jsonl"): reg.setdefault(r["seed"], {})[r["check"]] = r
 notes = json.load(open(SE + "/notes.json")) if os.path.exists(SE + "/notes.json") else {}
+# trial logs of the session (copies under seeded/logs, oldest first): "=== seed <name> [vs <ID>]" sections
+import glob
+hist = {}
+LOGS = sorted(glob.glob(SE + "/logs/seed_trials*.log"), key=lambda p: (len(os.path.basename(p)), p)) + [SE + "/logs/seed2_trials.log"] + sorted(glob.glob(SE + "/logs/seed2_trials_*.log")) + sorted(glob.glob(SE + "/logs/seed3_trials_*.log"))
+for lf in LOGS:
+    if not os.path.exists(lf): continue
+    text = open(lf).read()
+    if lf.endswith("/seed2_trials.log"):
+        # from the first C14b header on, two queues wrote into this file at once; those trials were re-run
+        # (seed2_trials_b..e.log), so the interleaved tail is ignored
+        cut = text.find("=== seed C14b vs C14")
+        if cut >= 0: text = text[:cut]
+    for m in re.finditer(r"^=== seed (C\d+[bc]?)(?: vs (C\d+))?.*$\n", text, flags=re.M):
+        rest = text[m.end():]; n = re.search(r"^=== ", rest, flags=re.M); body = rest[:n.start()] if n else rest
+        ex = re.search(r"check exit: (\d+)", body)
+        if not ex: continue
+        fps = []
+        for f in re.findall(r"^  fingerprint: (.*)$", body, flags=re.M):
+            f = re.sub(r"/root/scratch/[a-z0-9]+/repo/", "", f)
+            if f not in fps: fps.append(f)
+        hist.setdefault(m.group(1), []).append({"check": m.group(2) or m.group(1)[:3], "exit": int(ex.group(1)), "fingerprints": fps[:6], "log": "seeded/logs/" + os.path.basename(lf)})
+oldver = open(SE + "/logs/seed_verify.log").read() if os.path.exists(SE + "/logs/seed_verify.log") else ""
+def old_section(d):
+    m = re.search(rf"^=== verify {d} .*$\n", oldver, flags=re.M)
+    if not m: return None
+    rest = oldver[m.end():]; n = re.search(r"^=== ", rest, flags=re.M)
+    body = rest[:n.start()] if n else rest
+    return [l for l in body.strip().split("\n") if l.strip() and not re.match(r"\s*(Compiling|Finished|Running|warning)", l)][:14]
 for d in sorted(os.listdir(SE)):
     p = os.path.join(SE, d)
     if not os.path.isdir(p) or not os.path.exists(p + "/patch.diff"): continue
@@ -32,6 +60,8 @@ for d in sorted(os.listdir(SE)):
                 "demo_failure_with_patch": v.get("demo_patched_tail"), "existing_tests_with_patch": v.get("existing_tests_with_patch"),
                 "not_passed": v.get("existing_tests_not_passed"), "error": v.get("error"),
                 "remark": "NOT-RUN entries are feature-gated tests of the baseline that a per-crate run does not build (ffi, lz4/zstd, prettyprint); no stable test FAILED" if any("NOT-RUN" in x for x in (v.get("existing_tests_not_passed") or [])) else None}
+    if conf is None and old_section(d):
+        conf = {"how": "tools/seed_verify.sh in a scratch worktree of /repo HEAD (never /repo): demonstration on the clean tree, demonstration with patch.diff applied, the crate's own tests with the patch", "log": old_section(d)}
     runs = [{"check": c, "exit": r["exit"], "reported": r["reported"], "engine_died": r.get("engine_died"), "fingerprints": r["fingerprints"], "n_fingerprints": r["n_fingerprints"],
              "check_summary": r.get("summary"), "verif_commit": r.get("engine_commit"), "repo_commit": r.get("repo_commit")} for c, r in sorted(reg.get(d, {}).items())]
     meta = {"property": d[:3], "round": {"": 1, "b": 2, "c": 3}.get(d[3:], 1),
@@ -40,7 +70,8 @@ for d in sorted(os.listdir(SE)):
             "agent_reported": {k: agent.get(k) for k in ("crate_tests_run", "demo_with_patch", "demo_without_patch", "demo_command") if k in agent},
             "independent_confirmation": conf,
             "what_i_ran": {"how": "tools/regress_seeds.py -> tools/mutant_trial.sh: patch applied to a scratch worktree (never /repo), engine copy built against it, quick tier of the check; exit 1 = VIOLATION reported; an engine killed by a signal is reported by ./check as VIOLATION engine-died",
-                           "final_engines": runs},
+                           "final_engines": runs,
+                           "session_history": hist.get(d, [])},
             "first_reception": notes.get(d)}
     json.dump(meta, open(p + "/meta.json", "w"), indent=1, ensure_ascii=False)
-    print(d, "confirmed" if conf else "UNCONFIRMED", [(r["check"], r["exit"]) for r in runs])
+    print(d, "confirmed" if conf else "UNCONFIRMED", [(r["check"], r["exit"]) for r in runs], [(r["check"], r["exit"]) for r in hist.get(d, [])])
